@@ -351,7 +351,7 @@ func runC20(r *ev.Run) {
 		"FindNode.Contacted may count asks or successful answers; Get.Closest may be the nearest asked or the nearest answering node",
 		"adversaries fabricate at most 40 new ids per operation",
 	}
-	n := pick(r, 1500, 40000)
+	n := pick(r, 4000, 40000)
 	g := rng.New(r.Seed, "C20", fmt.Sprint(r.Batch))
 	for i := 0; i < n; i++ {
 		caseID := fmt.Sprintf("op-%d-%d", r.Batch, i)
